@@ -77,9 +77,57 @@ print('ROUNDTRIP-OK', state[:3])
     return dict(reproduced=bool(violated), violated=violated, observed=dict(returncode=p.returncode, stdout=p.stdout[-200:]))
 
 
+def setattr_name_refcount_case(case):
+    """C18: an attribute assignment, whether it succeeds or raises, leaves the reference count of the *name* object
+    unchanged.  The name is an instance of a str subclass whose __hash__ raises at the k-th call, so that the final
+    PyDict_SetItem in setattr_trait fails.  Runs in a child process: the failure mode is a use-after-free."""
+    import subprocess
+    prog = r"""
+import sys
+from traits.api import HasTraits, Int
+class S(str):
+    countdown = None
+    def __hash__(self):
+        if S.countdown is not None:
+            S.countdown -= 1
+            if S.countdown < 0:
+                raise RuntimeError("hash")
+        return str.__hash__(self)
+class A(HasTraits):
+    x = Int
+    def _x_changed(self, new):
+        pass
+a = A()
+a.x = 1
+bad = []
+for k in range(0, 8):
+    n = S('x')
+    before = sys.getrefcount(n)
+    S.countdown = k
+    try:
+        setattr(a, n, 5 + k)
+    except Exception:
+        pass
+    S.countdown = None
+    delta = sys.getrefcount(n) - before
+    if delta != 0:
+        bad.append((k, delta))
+print('DELTAS', bad)
+"""
+    p = subprocess.run([sys.executable, "-c", prog], capture_output=True, text=True)
+    violated = []
+    if p.returncode < 0:
+        violated.append("interpreter killed by signal %d: setattr with a str-subclass name whose __hash__ raises inside the final "
+                        "PyDict_SetItem over-decrements the name (use after free)" % -p.returncode)
+    elif "DELTAS []" not in p.stdout:
+        violated.append("reference count of the attribute name changed: %s" % p.stdout.strip()[-200:])
+    return dict(reproduced=bool(violated), violated=violated, observed=dict(returncode=p.returncode, stdout=p.stdout[-200:]))
+
+
 def main():
     case = json.loads(sys.stdin.read())
-    out = {"float_range": float_range_case, "ctrait_state": ctrait_state_case}[case["family"]](case)
+    out = {"float_range": float_range_case, "ctrait_state": ctrait_state_case,
+           "setattr_name_refcount": setattr_name_refcount_case}[case["family"]](case)
     print(json.dumps(out, default=repr))
 
 
